@@ -200,7 +200,8 @@ pub fn run_c09(cx: &mut Cx) {
     let victim = cx.node("victim");
     let suite = Suite::from_idx(ri);
     let l = 2 + cx.ch.choose("honest_L", 4) as usize;
-    let m = 1 + cx.ch.choose("honest_M", 3) as usize;
+    // (a commitment to no message at all -- an empty response list -- is an artefact too)
+    let m = cx.ch.choose("honest_M", 4) as usize;
     let seed = cx.run_seed;
     cx.step(victim, "honest-session", StepOpts::default(), move || make_honest(suite, seed, l, m), move |cx, st| {
         let h = match st.out { Ok(Ok(h)) => Arc::new(h), other => { cx.log(format!("honest session failed: {:?}", other.err())); return; } };
@@ -251,6 +252,23 @@ pub fn run_c09(cx: &mut Cx) {
                         let mut f = b.clone();
                         f[off..off + n].copy_from_slice(&rep);
                         probe(cx, victim, suite, art, f, format!("{name}:@{off}"), forbidden);
+                    }
+                }
+                // TWO points of a proof moved off the prime-order subgroup by opposite small-order
+                // components (P + T, Q - T with T of order 3): each point alone is outside G1, their
+                // sum is not -- a decoder that tests membership of a combination accepts the pair
+                if art == Art::Proof {
+                    use bls12_381_plus::{G1Affine, G1Projective};
+                    use group::Curve;
+                    let t3 = crate::scen_proof::small_order_point();
+                    let dec = |o: &[u8]| -> Option<G1Projective> { let a: [u8; 48] = o.try_into().ok()?; Option::<G1Affine>::from(G1Affine::from_compressed(&a)).map(G1Projective::from) };
+                    for (i, j) in [(0usize, 48usize), (0, 96), (48, 96)] {
+                        if let (Some(p), Some(q)) = (dec(&b[i..i + 48]), dec(&b[j..j + 48])) {
+                            let mut f = b.clone();
+                            f[i..i + 48].copy_from_slice(&(p + t3).to_affine().to_compressed());
+                            f[j..j + 48].copy_from_slice(&(q - t3).to_affine().to_compressed());
+                            probe(cx, victim, suite, art, f, format!("two-points-off-subgroup-cancelling:@{i}+@{j}"), true);
+                        }
                     }
                 }
                 // the same substitutions through the serde decoder (it bypasses from_bytes)
